@@ -64,14 +64,20 @@ def run(seed):
                 parts = c.split("/")
                 if len(parts) > 3 and parts[:2] == ["src", "twisted"]:
                     pk.add(parts[2])
-            if "internet" in pk:
-                pk |= {"protocols", "web", "application", "names", "mail", "words", "conch", "spread", "_threads", "logger"}
-            if "python" in pk or "logger" in pk:
-                pk |= {"logger", "application", "web"}
-            if "protocols" in pk:
-                pk |= {"web", "mail", "words", "conch", "spread", "names"}
-            if "cred" in pk:
-                pk |= {"web", "mail", "words", "conch", "spread"}
+            if os.environ.get("SEEDTEST_DEPENDANTS") == "1":
+                if "internet" in pk:
+                    pk |= {"protocols", "web", "application", "names", "mail", "words", "conch", "spread", "_threads", "logger"}
+                if "python" in pk or "logger" in pk:
+                    pk |= {"logger", "application", "web"}
+                if "protocols" in pk:
+                    pk |= {"web", "mail", "words", "conch", "spread", "names"}
+                if "cred" in pk:
+                    pk |= {"web", "mail", "words", "conch", "spread"}
+            else:   # one level of main dependants only
+                if "internet" in pk:
+                    pk |= {"protocols", "application"}
+                if "cred" in pk:
+                    pk |= {"web"}
             targets = sorted("src/twisted/" + x for x in pk if os.path.isdir(os.path.join(wt, "src/twisted", x)))
             pref = tuple(t.replace("/", ".") + "." for t in targets)
             stable = {t for t in STABLE if t.startswith(pref)}
